@@ -6,9 +6,9 @@ namespace N2k.Rx
 open Spec
 
 /-- first frame of a fast packet, or a single frame: the frames that need a slot -/
-def needsSlot (f : Frame) : Bool := !(isFP f.pgn && f.byte 0 % 32 != 0)
+def needsSlot (c : Cfg) (f : Frame) : Bool := !(isFP c f.pgn && f.byte 0 % 32 != 0)
 
-def availStep (c : Cfg) (st : St) (f : Frame) : Bool := !(handled c f && needsSlot f) || avail st f
+def availStep (c : Cfg) (st : St) (f : Frame) : Bool := !(handled c f && needsSlot c f) || avail st f
 
 /-- at every first / single frame of the history the slot search finds the slot of the frame's PGN and source or a
 free slot (it neither gives up nor recycles a slot that is older than 100 ms). Decidable on a concrete run. -/
@@ -24,29 +24,33 @@ theorem delivered_cons (c : Cfg) (st : St) (e : Nat × Frame) (rest : List (Nat 
   cases (rx c st e.1 e.2).2 <;> simp
 
 theorem run_refines (c : Cfg) : ∀ (evs : List (Nat × Frame)) (st : St) (H : List Frame) (S : SState),
-    Inv isFP st H → Abs st S → (∀ e ∈ evs, WFrame e.2) → AvailRun c st evs →
-    delivered c st evs = (Spec.outputs isFP S (handledFrames c evs)).filterMap id
-  | [], _, _, _, _, _, _, _ => by simp [delivered, N2k.Rx.outputs, handledFrames, Spec.outputs]
-  | e :: rest, st, H, S, hI, hA, hwf, hav => by
+    Inv (isFP c) st H → Abs st S → NoTP st → (∀ e ∈ evs, WFrame e.2) → (∀ e ∈ evs, isTPOpen e.2 = false) →
+    AvailRun c st evs →
+    delivered c st evs = (Spec.outputs (isFP c) S (handledFrames c evs)).filterMap id
+  | [], _, _, _, _, _, _, _, _, _ => by simp [delivered, N2k.Rx.outputs, handledFrames, Spec.outputs]
+  | e :: rest, st, H, S, hI, hA, hT, hwf, hnt, hav => by
     have hwe : WFrame e.2 := hwf e (by simp)
     obtain ⟨hI', _⟩ := rx_spec c st H hI e.1 e.2 hwe
     rw [delivered_cons, handledFrames_cons]
     by_cases hh : handled c e.2 = true
-    · have hrx : rx c st e.1 e.2 = rxCore isFP st e.1 e.2 := by unfold rx; rw [if_pos hh]
-      have hr := rxCore_refines isFP isFP_zero st H S hI hA e.1 e.2 hwe (by
+    · have hrx : rx c st e.1 e.2 = rxCore (isFP c) st e.1 e.2 := by unfold rx; rw [if_pos hh]
+      have hr := rxCore_refines (isFP c) (isFP_zero c) st H S hI hA hT e.1 e.2 hwe (by
         intro hn
         have := hav.1
         unfold availStep at this
-        have hns : needsSlot e.2 = true := by unfold needsSlot; rw [hn]; rfl
+        have hns : needsSlot c e.2 = true := by unfold needsSlot; rw [hn]; rfl
         simpa [hh, hns] using this)
       simp only [hh, ↓reduceIte, List.singleton_append, Spec.outputs]
-      rw [run_refines c rest _ _ (step isFP S e.2).1 hI' (by rw [hrx]; exact hr.1)
-        (fun x hx => hwf x (by simp [hx])) hav.2]
+      rw [run_refines c rest _ _ (step (isFP c) S e.2).1 hI' (by rw [hrx]; exact hr.1)
+        (by rw [hrx]; exact hT.rxCore _ _ _)
+        (fun x hx => hwf x (by simp [hx])) (fun x hx => hnt x (by simp [hx])) hav.2]
       rw [hrx, hr.2]
-      cases (step isFP S e.2).2 <;> simp
-    · have hrx : rx c st e.1 e.2 = (st, none) := by unfold rx; rw [if_neg hh]
+      cases (step (isFP c) S e.2).2 <;> simp
+    · have hrx : rx c st e.1 e.2 = (st, none) := by
+        unfold rx; rw [if_neg hh, hnt e (by simp)]; rfl
       simp only [hh, Bool.false_eq_true, ↓reduceIte, List.nil_append]
-      rw [run_refines c rest _ _ S hI' (by rw [hrx]; exact hA) (fun x hx => hwf x (by simp [hx])) hav.2]
+      rw [run_refines c rest _ _ S hI' (by rw [hrx]; exact hA) (by rw [hrx]; exact hT)
+        (fun x hx => hwf x (by simp [hx])) (fun x hx => hnt x (by simp [hx])) hav.2]
       rw [hrx]; rfl
 
 /-! ### as many (PGN, source) pairs as slots ⇒ the search always succeeds -/
@@ -61,7 +65,7 @@ theorem nodup_map_range {α : Type} (g : Nat → α) (n : Nat)
 
 /-- pigeonhole: if all (PGN, source) pairs that have occurred, and the one of `f`, lie in a list `K` of at most `N`
 pairs, then a slot of `f`'s pair or a free slot exists -/
-theorem avail_of_few_keys (st : St) (H : List Frame) (hI : Inv isFP st H) (K : List (Nat × Nat))
+theorem avail_of_few_keys (c : Cfg) (st : St) (H : List Frame) (hI : Inv (isFP c) st H) (hT : NoTP st) (K : List (Nat × Nat))
     (hK : K.length ≤ st.N) (hH : ∀ g ∈ H, (g.pgn, g.src) ∈ K) (f : Frame) (hfK : (f.pgn, f.src) ∈ K) :
     avail st f = true := by
   apply Decidable.byContradiction
@@ -81,17 +85,17 @@ theorem avail_of_few_keys (st : St) (H : List Frame) (hI : Inv isFP st H) (K : L
       obtain ⟨j, hj, hgj⟩ := List.mem_map.mp hmem
       have hj' := List.mem_range.mp hj
       simp only [g, Prod.mk.injEq] at hgj
-      exact Inv.others_of_nomatch f hnm j hj' hgj
+      exact Inv.others_of_nomatch f hnm j hj' (hT j hj') hgj
     · intro i j hi hj hij
       simp only [g, Prod.mk.injEq] at hij
-      exact hI.uniq i j hi hj (hbusy i hi) (hbusy j hj) hij.1 hij.2
+      exact hI.uniq i j hi hj (hbusy i hi) (hbusy j hj) (hT i hi) (hT j hj) hij.1 hij.2
   have hsub : ((f.pgn, f.src) :: (List.range st.N).map g) ⊆ K := by
     intro x hx
     rcases List.mem_cons.mp hx with hx | hx
     · rw [hx]; exact hfK
     · obtain ⟨j, hj, hgj⟩ := List.mem_map.mp hx
       have hj' := List.mem_range.mp hj
-      obtain ⟨_, ⟨f0, hw⟩, hsuf⟩ := hI.busy j hj' (hbusy j hj')
+      obtain ⟨_, ⟨f0, hw⟩, hsuf⟩ := hI.busy j hj' (hbusy j hj') (hT j hj')
       have h0mem : f0 ∈ (st.slot j).hist := List.mem_of_mem_head? hw.chain.head
       have h0k : f0 ∈ keyHist H (st.slot j).pgn (st.slot j).src := hsuf.subset h0mem
       unfold keyHist at h0k
@@ -106,18 +110,23 @@ theorem avail_of_few_keys (st : St) (H : List Frame) (hI : Inv isFP st H) (K : L
   omega
 
 theorem availRun_of_few_keys (c : Cfg) (K : List (Nat × Nat)) :
-    ∀ (evs : List (Nat × Frame)) (st : St) (H : List Frame), Inv isFP st H → K.length ≤ st.N →
-    (∀ g ∈ H, (g.pgn, g.src) ∈ K) → (∀ e ∈ evs, WFrame e.2) →
+    ∀ (evs : List (Nat × Frame)) (st : St) (H : List Frame), Inv (isFP c) st H → NoTP st → K.length ≤ st.N →
+    (∀ g ∈ H, (g.pgn, g.src) ∈ K) → (∀ e ∈ evs, WFrame e.2) → (∀ e ∈ evs, isTPOpen e.2 = false) →
     (∀ e ∈ evs, handled c e.2 = true → (e.2.pgn, e.2.src) ∈ K) → AvailRun c st evs
-  | [], _, _, _, _, _, _, _ => trivial
-  | e :: rest, st, H, hI, hK, hH, hwf, hev => by
+  | [], _, _, _, _, _, _, _, _, _ => trivial
+  | e :: rest, st, H, hI, hT, hK, hH, hwf, hnt, hev => by
     have hwe : WFrame e.2 := hwf e (by simp)
     obtain ⟨hI', _⟩ := rx_spec c st H hI e.1 e.2 hwe
-    refine ⟨?_, availRun_of_few_keys c K rest _ _ hI' (by rw [rx_N]; exact hK) ?_
-      (fun x hx => hwf x (by simp [hx])) (fun x hx => hev x (by simp [hx]))⟩
+    have hT' : NoTP (rx c st e.1 e.2).1 := by
+      unfold rx
+      split
+      · exact hT.rxCore _ _ _
+      · rw [hnt e (by simp)]; exact hT
+    refine ⟨?_, availRun_of_few_keys c K rest _ _ hI' hT' (by rw [rx_N]; exact hK) ?_
+      (fun x hx => hwf x (by simp [hx])) (fun x hx => hnt x (by simp [hx])) (fun x hx => hev x (by simp [hx]))⟩
     · unfold availStep
       by_cases hh : handled c e.2 = true
-      · rw [avail_of_few_keys st H hI K hK hH e.2 (hev e (by simp) hh)]; simp
+      · rw [avail_of_few_keys c st H hI hT K hK hH e.2 (hev e (by simp) hh)]; simp
       · simp [hh]
     · intro g hg
       rw [List.mem_append] at hg
@@ -137,11 +146,12 @@ def Spec.fits (N : Nat) (S : SState) (f : Frame) : Prop :=
 
 /-- "up to as many concurrent senders as there are reassembly slots": along the run of the ABSTRACT reassembler over
 the frames, whenever a first or single frame arrives, `Spec.fits` holds. A property of the frame sequence alone. -/
-def Spec.Fits (N : Nat) : SState → List Frame → Prop
+def Spec.Fits (c : Cfg) (N : Nat) : SState → List Frame → Prop
   | _, [] => True
-  | S, f :: rest => (needsSlot f = true → Spec.fits N S f) ∧ Spec.Fits N (step isFP S f).1 rest
+  | S, f :: rest => (needsSlot c f = true → Spec.fits N S f) ∧ Spec.Fits c N (step (isFP c) S f).1 rest
 
-theorem avail_of_fits (st : St) (H : List Frame) (S : SState) (hI : Inv isFP st H) (hA : Abs st S) (f : Frame)
+theorem avail_of_fits (c : Cfg) (st : St) (H : List Frame) (S : SState) (hI : Inv (isFP c) st H) (hA : Abs st S)
+    (hT : NoTP st) (f : Frame)
     (hfit : Spec.fits st.N S f) : avail st f = true := by
   obtain ⟨K, hK, hfK, hS⟩ := hfit
   apply Decidable.byContradiction
@@ -161,10 +171,10 @@ theorem avail_of_fits (st : St) (H : List Frame) (S : SState) (hI : Inv isFP st 
       obtain ⟨j, hj, hgj⟩ := List.mem_map.mp hmem
       have hj' := List.mem_range.mp hj
       simp only [g, Prod.mk.injEq] at hgj
-      exact Inv.others_of_nomatch f hnm j hj' hgj
+      exact Inv.others_of_nomatch f hnm j hj' (hT j hj') hgj
     · intro i j hi hj hij
       simp only [g, Prod.mk.injEq] at hij
-      exact hI.uniq i j hi hj (hbusy i hi) (hbusy j hj) hij.1 hij.2
+      exact hI.uniq i j hi hj (hbusy i hi) (hbusy j hj) (hT i hi) (hT j hj) hij.1 hij.2
   have hsub : ((f.pgn, f.src) :: (List.range st.N).map g) ⊆ K := by
     intro x hx
     rcases List.mem_cons.mp hx with hx | hx
@@ -175,40 +185,43 @@ theorem avail_of_fits (st : St) (H : List Frame) (S : SState) (hI : Inv isFP st 
       apply hS
       rcases hA (st.slot j).pgn (st.slot j).src with ⟨_, h2⟩ | ⟨j2, hj2, hf2, hp2, hs2, hh2⟩
       · exact absurd ⟨rfl, rfl⟩ (h2 j hj' (hbusy j hj'))
-      · obtain ⟨_, ⟨f0, hw⟩, _⟩ := hI.busy j2 hj2 hf2
+      · obtain ⟨_, ⟨f0, hw⟩, _⟩ := hI.busy j2 hj2 hf2 (hT j2 hj2)
         rw [← hh2]; exact hw.chain.ne_nil
   have hlen := hnd.length_le_of_subset hsub
   simp only [List.length_cons, List.length_map, List.length_range] at hlen
   omega
 
 theorem availRun_of_fits (c : Cfg) : ∀ (evs : List (Nat × Frame)) (st : St) (H : List Frame) (S : SState),
-    Inv isFP st H → Abs st S → (∀ e ∈ evs, WFrame e.2) → Spec.Fits st.N S (handledFrames c evs) →
-    AvailRun c st evs
-  | [], _, _, _, _, _, _, _ => trivial
-  | e :: rest, st, H, S, hI, hA, hwf, hfit => by
+    Inv (isFP c) st H → Abs st S → NoTP st → (∀ e ∈ evs, WFrame e.2) → (∀ e ∈ evs, isTPOpen e.2 = false) →
+    Spec.Fits c st.N S (handledFrames c evs) → AvailRun c st evs
+  | [], _, _, _, _, _, _, _, _, _ => trivial
+  | e :: rest, st, H, S, hI, hA, hT, hwf, hnt, hfit => by
     have hwe : WFrame e.2 := hwf e (by simp)
     obtain ⟨hI', _⟩ := rx_spec c st H hI e.1 e.2 hwe
     rw [handledFrames_cons] at hfit
     by_cases hh : handled c e.2 = true
     · simp only [hh, ↓reduceIte, List.singleton_append] at hfit
-      have hrx : rx c st e.1 e.2 = rxCore isFP st e.1 e.2 := by unfold rx; rw [if_pos hh]
-      have hav : needsSlot e.2 = true → avail st e.2 = true :=
-        fun hn => avail_of_fits st H S hI hA e.2 (hfit.1 hn)
-      have hr := rxCore_refines isFP isFP_zero st H S hI hA e.1 e.2 hwe (by
+      have hrx : rx c st e.1 e.2 = rxCore (isFP c) st e.1 e.2 := by unfold rx; rw [if_pos hh]
+      have hav : needsSlot c e.2 = true → avail st e.2 = true :=
+        fun hn => avail_of_fits c st H S hI hA hT e.2 (hfit.1 hn)
+      have hr := rxCore_refines (isFP c) (isFP_zero c) st H S hI hA hT e.1 e.2 hwe (by
         intro hn; apply hav; unfold needsSlot; rw [hn]; rfl)
-      refine ⟨?_, availRun_of_fits c rest _ _ (step isFP S e.2).1 hI' (by rw [hrx]; exact hr.1)
-        (fun x hx => hwf x (by simp [hx])) (by rw [rx_N]; exact hfit.2)⟩
+      refine ⟨?_, availRun_of_fits c rest _ _ (step (isFP c) S e.2).1 hI' (by rw [hrx]; exact hr.1)
+        (by rw [hrx]; exact hT.rxCore _ _ _)
+        (fun x hx => hwf x (by simp [hx])) (fun x hx => hnt x (by simp [hx])) (by rw [rx_N]; exact hfit.2)⟩
       unfold availStep
-      by_cases hn : needsSlot e.2 = true
+      by_cases hn : needsSlot c e.2 = true
       · rw [hav hn]; simp
       · simp [hn]
     · simp only [hh, Bool.false_eq_true, ↓reduceIte, List.nil_append] at hfit
-      have hrx : rx c st e.1 e.2 = (st, none) := by unfold rx; rw [if_neg hh]
+      have hrx : rx c st e.1 e.2 = (st, none) := by
+        unfold rx; rw [if_neg hh, hnt e (by simp)]; rfl
       refine ⟨by unfold availStep; simp [hh], availRun_of_fits c rest _ _ S hI' (by rw [hrx]; exact hA)
-        (fun x hx => hwf x (by simp [hx])) (by rw [rx_N]; exact hfit)⟩
+        (by rw [hrx]; exact hT)
+        (fun x hx => hwf x (by simp [hx])) (fun x hx => hnt x (by simp [hx])) (by rw [rx_N]; exact hfit)⟩
 
 /-- the abstract reassembler only ever holds messages of (PGN, source) pairs it has seen -/
-theorem step_keys (S : SState) (f : Frame) (pgn src : Nat) (h : (step isFP S f).1 pgn src ≠ []) :
+theorem step_keys (isFP : Nat → Bool) (S : SState) (f : Frame) (pgn src : Nat) (h : (step isFP S f).1 pgn src ≠ []) :
     S pgn src ≠ [] ∨ (pgn, src) = (f.pgn, f.src) := by
   by_cases hk : pgn = f.pgn ∧ src = f.src
   · right; rw [hk.1, hk.2]
@@ -229,14 +242,14 @@ theorem step_keys (S : SState) (f : Frame) (pgn src : Nat) (h : (step isFP S f).
           · dsimp only at h; rwa [hs] at h
     · exact h
 
-theorem fits_of_few_keys (N : Nat) (K : List (Nat × Nat)) (hK : K.length ≤ N) :
+theorem fits_of_few_keys (c : Cfg) (N : Nat) (K : List (Nat × Nat)) (hK : K.length ≤ N) :
     ∀ (fs : List Frame) (S : SState), (∀ pgn src, S pgn src ≠ [] → (pgn, src) ∈ K) →
-    (∀ f ∈ fs, (f.pgn, f.src) ∈ K) → Spec.Fits N S fs
+    (∀ f ∈ fs, (f.pgn, f.src) ∈ K) → Spec.Fits c N S fs
   | [], _, _, _ => trivial
   | f :: rest, S, hS, hfs => by
-    refine ⟨fun _ => ⟨K, hK, hfs f (by simp), hS⟩, fits_of_few_keys N K hK rest _ ?_ (fun x hx => hfs x (by simp [hx]))⟩
+    refine ⟨fun _ => ⟨K, hK, hfs f (by simp), hS⟩, fits_of_few_keys c N K hK rest _ ?_ (fun x hx => hfs x (by simp [hx]))⟩
     intro pgn src h
-    rcases step_keys S f pgn src h with h | h
+    rcases step_keys (isFP c) S f pgn src h with h | h
     · exact hS pgn src h
     · rw [h]; exact hfs f (by simp)
 
